@@ -27,6 +27,8 @@ After every state-changing op: one line `st <node> nf | st <node> p0 p1 n0 n1 e0
   fwfilter <the tokens of a filter line> : the verdict of the scheduler FRAMEWORK for that node in a cycle
         RunPreFilterPlugins -> RunFilterPluginsWithNominatedPods on one CycleState (Model/C08Fw.lean) -> `fw <verdict>`
         (5 = PreFilter aborted the cycle)
+  pst <kind> <cls> <req0> <lim0> <req1> <lim1> : status.containerStatuses[].resources of the NEXT pod-carrying line (not read
+        by the estimate; no output).   mvia <fn> <hasOld> <mode> : how the NEXT metric line is delivered (no output).
   race <k> : k barrier-released (add-type || delete-type) pairs on a separate node -> `race <lostPods> <lostReports>`
 -/
 namespace KoordVerif.C08
@@ -192,6 +194,14 @@ def stepLine (st : St) (line : String) : St × List String :=
                                    sched := none, init := none, customFactors := [], customSched := -1, customInit := -1, res := [] }
           ({ st with pending := some sh }, [showShape (sh.apply cfg.d blank)])
         | none => (st, ["bad-op"])
+      -- container-status resources of the next pod (kind cls req0 lim0 req1 lim1): the estimate reads the SPEC only
+      -- (estimatedPodUsed: PodRequests / PodLimits with empty options), so the model has no such field; the line is a no-op
+      -- that keeps a pending `shape`
+      | "pst", some _ => if xs.length == 6 then (st, []) else (st, ["bad-op"])
+      -- how the next `metric` line reaches the cache: <fn 0 AddFunc | 1 UpdateFunc | 2 cache method> <old object passed>
+      -- <0 spec+status | 1 spec-only | 2 status-only change>.  The registered handler forwards EVERY add / update to
+      -- AddOrUpdateNodeMetric whatever `old` is (the report interval is read from the spec of the new object): a no-op
+      | "mvia", some _ => if xs.length == 3 then (st, []) else (st, ["bad-op"])
       | k, some cfg =>
         let parsePod (toks : List Int) : Option PodDesc :=
           (parsePod toks).map fun p => match st.pending with
